@@ -31,8 +31,10 @@
     between non-NaN numbers (`wilson_invalidBounds_XR`), e.g. for a negative critical value.
   * `Unpaired::ci_mean` hands real-valued effective degrees of freedom to `t_value`, which panics on
     `dof ≤ 0`. On `XR` this cannot happen (`unpaired_total_XR`: the value is NaN/+∞ — z branch — or
-    positive). At exact reals (`Rex`, where `0/0 = 0`) it can only happen for two constant samples,
-    which is an artefact of the carrier (`unpaired_total_Rex`).
+    positive). Rounding could make it happen (underflow of the fourth powers for spreads around
+    1e-81: a genuine defect, repaired by bounding the computed value below by `min(n_a, n_b) − 1`):
+    `unpaired_total_any_rounding` proves that with the bound no rounding function whatever can lead
+    to the panic; at exact reals no hypothesis on the samples is left (`unpaired_total_Rex'`).
   * `ci_sorted_unchecked` does not check that its slice is sorted — this is what "unchecked"
     documents — but it does check the elements it selects: one that is not comparable with itself
     (a NaN) is answered by `InvalidInputData` and never comes back as a bound
@@ -218,6 +220,47 @@ theorem unpaired_total_Rex (crit : Crit Rex) (conf : Confidence Rex)
     (hpos : (Unpaired.s2n u.a).val ≠ 0 ∨ (Unpaired.s2n u.b).val ≠ 0) :
     (Unpaired.ciMean crit u conf).isPanic = false :=
   Unpaired.ciMean_isPanic_Rex crit u conf hq hpos
+
+/-- **Whatever the rounding — underflow of the fourth powers included — `t_value` is never asked for
+    a non-positive number of degrees of freedom.** On the reals with an *arbitrary* function `fl`
+    applied after every operation (no accuracy assumption at all: `fl` may send the products in the
+    effective-degrees-of-freedom formula to zero, as underflow does), the value handed on is the
+    computed one bounded below by `fl (min (fl n_a) (fl n_b) − 1)`; as soon as that bound is positive
+    (it is `min(n_a, n_b) − 1 ≥ 1` when `fl` is exact on the two counts and on that difference, as
+    IEEE arithmetic is for counts below 2⁵³) `Unpaired::ci_mean` does not panic. Before the repair
+    (`fix: the effective degrees of freedom … never fall below min(n_a, n_b) − 1`) the computed value
+    could be `0` (`Unpaired::ci(0.95, [0, 3.3e-81], [1, 1, 1])` panicked). -/
+theorem unpaired_total_any_rounding {fl : ℝ → ℝ} (crit : Crit (RR fl)) (conf : Confidence (RR fl))
+    (hq : probOk conf.quantile = true) (u : Unpaired (RR fl))
+    (hpos : 0 < fl (min (fl u.a.count) (fl u.b.count) - 1)) :
+    (Unpaired.ciMean crit u conf).isPanic = false := by
+  apply unpaired_total crit conf hq u
+  intro _
+  rw [Unpaired.dofW_eq_dofF_RR, RR.gt_iff]
+  have h : (Unpaired.dofF u).val =
+      max (Unpaired.effectiveDof (Unpaired.s2n u.a) (Unpaired.s2n u.b)
+        (Scalar.ofNat u.a.count) (Scalar.ofNat u.b.count) : RR fl).val
+        (fl (min (fl u.a.count) (fl u.b.count) - 1)) := by
+    rw [Unpaired.dofF, Unpaired.clampDof_val]
+    simp only [RR.ofNat_val]
+  rw [h]
+  exact lt_of_lt_of_le (by simpa using hpos) (le_max_right _ _)
+
+/-- the hypothesis is satisfiable, and met by every rounding that is exact on small integers:
+    exact arithmetic, sizes 2 and 3 -/
+example : (0 : ℝ) < id (min (id ((2 : ℕ) : ℝ)) (id ((3 : ℕ) : ℝ)) - 1) := by norm_num
+
+/-- at exact reals no hypothesis on the samples is needed any more: two constant samples (where `Rex`
+    evaluates `0/0` to `0`) get `min(n_a, n_b) − 1` degrees of freedom -/
+theorem unpaired_total_Rex' (crit : Crit Rex) (conf : Confidence Rex)
+    (hq : probOk conf.quantile = true) (u : Unpaired Rex) (ha : 2 ≤ u.a.count) (hb : 2 ≤ u.b.count) :
+    (Unpaired.ciMean crit u conf).isPanic = false := by
+  apply unpaired_total_any_rounding crit conf hq u
+  have h1 : (2 : ℝ) ≤ u.a.count := by exact_mod_cast ha
+  have h2 : (2 : ℝ) ≤ u.b.count := by exact_mod_cast hb
+  have : (2 : ℝ) ≤ min (u.a.count : ℝ) u.b.count := le_min h1 h2
+  simp only [id_eq]
+  linarith
 
 /-- an `Ok` of `Unpaired::ci_mean`: kind of the confidence, `¬ lo > hi`, finite statistics -/
 theorem unpaired_ok_is_sane (crit : Crit W) (conf : Confidence W) (u : Unpaired F) (i : Interval F)
